@@ -75,7 +75,11 @@ func encryptAuthenticator(a types.Authenticator, sessionKey types.EncryptionKey,
 // DecryptAuthenticator decrypts the Authenticator within the AP_REQ.
 // sessionKey may simply be the key within the decrypted EncPart of the ticket within the AP_REQ.
 func (a *APReq) DecryptAuthenticator(sessionKey types.EncryptionKey) error {
-	usage := authenticatorKeyUsage(a.Ticket.SName)
+	return a.decryptAuthenticator(sessionKey, authenticatorKeyUsage(a.Ticket.SName))
+}
+
+// decryptAuthenticator decrypts the Authenticator within the AP_REQ under the key usage given.
+func (a *APReq) decryptAuthenticator(sessionKey types.EncryptionKey, usage int) error {
 	ab, e := crypto.DecryptEncPart(a.EncryptedAuthenticator, sessionKey, uint32(usage))
 	if e != nil {
 		return fmt.Errorf("error decrypting authenticator: %v", e)
@@ -183,7 +187,13 @@ func (a *APReq) Verify(kt *keytab.Keytab, d time.Duration, cAddr types.HostAddre
 	}
 
 	// Decrypt authenticator with session key from ticket's encrypted part
-	err = a.DecryptAuthenticator(a.Ticket.DecryptedEncPart.Key)
+	// The key usage follows from what the verifier is - the principal whose key opened the ticket - not from the name
+	// written on the ticket in clear, which does not select the key when the keytab principal is overridden.
+	vn := a.Ticket.SName
+	if snameOverride != nil {
+		vn = *snameOverride
+	}
+	err = a.decryptAuthenticator(a.Ticket.DecryptedEncPart.Key, authenticatorKeyUsage(vn))
 	if err != nil {
 		return false, NewKRBError(a.Ticket.SName, a.Ticket.Realm, errorcode.KRB_AP_ERR_BAD_INTEGRITY, "could not decrypt authenticator")
 	}
